@@ -181,6 +181,18 @@ def ood_cases():
                     v[idx] = (1 << bits[idx]) + delta
                     yield "bitfield:%s:%s:%d:+%d" % ("shift" if shift else "noshift", bits, idx, delta), \
                         {"k": "bitfield", "p": p, "bits": bits, "shift": shift}, ("RAW", v)
+    # un-shifted bit-fields take member values already in position: a value with bits below its member's position is out of domain
+    for bits in ([3, 5], [4, 4, 8], [1, 7]):
+        p = "U8" if sum(bits) == 8 else "U16"
+        cur = 0
+        for idx in range(len(bits)):
+            if idx >= 1:
+                for low in (1, (1 << cur) - 1):
+                    v = [0] * len(bits)
+                    v[idx] = (1 << cur) | low
+                    yield "bitfield:noshift:%s:%d:stray-low-bits:%d" % (bits, idx, low), \
+                        {"k": "bitfield", "p": p, "bits": bits, "shift": False}, ("POSITIONED", v)
+            cur += bits[idx]
     yield "prim:U8:256", {"k": "prim", "p": "U8"}, 256
     yield "prim:S8:-129", {"k": "prim", "p": "S8"}, -129
     yield "typed_byte_array:U8:inner-too-long", {"k": "typed_byte_array", "len": "U8", "lazy": False, "empty_is_none": False,
@@ -199,6 +211,8 @@ def check_ood(name, desc, value):
                 vals["f%d" % i] = x if desc["shift"] else (x << cur)
                 cur += b
             richv = vals
+        elif isinstance(value, tuple) and value and value[0] == "POSITIONED":
+            richv = {"f%d" % i: x for i, x in enumerate(value[1])}
         else:
             richv = gs.rich(desc, value) if not isinstance(value, (bytes, str)) or desc["k"] in ("byte_array", "bytes_fixed", "str", "str_fixed") else value
         try:
